@@ -191,3 +191,20 @@ pub fn lib_moves(b: &Board) -> Vec<Mv> {
 pub fn bitboard(b: u64) -> BitBoard {
     BitBoard::new(b)
 }
+
+/// Successor through the in-place entry point, written into a board that holds other contents.
+pub fn make_in_place(b: &Board, m: ChessMove, stale: &Board) -> Board {
+    let mut out = *stale;
+    b.make_move(m, &mut out);
+    out
+}
+/// Successor through one of the two move-application entry points, chosen by `sel` (the
+/// library documents them as equivalent; histories use both so that every property sees
+/// positions produced by either).
+pub fn advance(b: &Board, m: ChessMove, sel: u64, stale: &Board) -> Board {
+    if sel % 2 == 0 {
+        b.make_move_new(m)
+    } else {
+        make_in_place(b, m, stale)
+    }
+}
